@@ -9,6 +9,7 @@ CONSTANTS
   Kinds = {"pa", "rd", "ra", "aw", "sd", "sa", "sc", "bd", "ba", "pk", "up", "qo", "qd", "qa"}
   NatKinds = {"sd", "rd", "up", "qd"}
   Prune = TRUE
+  Plan = "free"
 INVARIANTS TypeOK CoroMode RunToSuspension QueueFIFO ObservedOrder ResumeOncePerReadying NoReentrancy RoundRobin FullDrain AllDoneAtEnd
 PROPERTY FIFOStep
 CHECK_DEADLOCK FALSE
